@@ -8,7 +8,7 @@ use serde_json::{json, Value};
 use sourcemap::{decode, decode_data_url, decode_slice, is_sourcemap, is_sourcemap_slice, DecodedMap};
 use std::io::Read;
 
-const HALPHA: [u8; 8] = [b')', b']', b'}', b'\'', b'x', b'\r', b'\n', b'{'];
+const HALPHA: [u8; 9] = [b')', b']', b'}', b'\'', b'x', b'\r', b'\n', b'{', 0xC3];
 
 /// Reader that returns exactly the bytes up to the next cut on each call.
 struct Chunked<'a> {
@@ -199,14 +199,14 @@ pub fn bodies() -> Vec<(&'static str, Vec<u8>)> {
 
 pub fn run(run: &mut Run) -> Finish {
     let tier = run.ctx.tier;
-    let hmax = tier.pick(4, 6);
-    let nh = crate::spaces::n_seq_upto(8, hmax);
+    let hmax = tier.pick(4, 5);
+    let nh = crate::spaces::n_seq_upto(9, hmax);
     let bods = bodies();
     let nb = bods.len() as u64;
 
-    run.par_slice("every header of length <= 4/6 over {) ] } ' x \\r \\n {} x 6 bodies x every composition of the first len(header)+3 bytes (remainder in one read)", 1, nh * nb, |idx, l| {
+    run.par_slice("every header of length <= 4/5 over {) ] } ' x \\r \\n { 0xC3} x 6 bodies x every composition of the first len(header)+3 bytes (remainder in one read)", 1, nh * nb, |idx, l| {
         let k = idx & ((1 << 40) - 1);
-        let header: Vec<u8> = crate::spaces::seq_upto_unrank(8, hmax, k / nb).iter().map(|&i| HALPHA[i]).collect();
+        let header: Vec<u8> = crate::spaces::seq_upto_unrank(9, hmax, k / nb).iter().map(|&i| HALPHA[i]).collect();
         let mut data = header.clone();
         data.extend_from_slice(&bods[(k % nb) as usize].1);
         let npos = (header.len() + 3).min(data.len());
@@ -224,7 +224,7 @@ pub fn run(run: &mut Run) -> Finish {
     let tiny: [&[u8]; 4] = [b"", b"{}", b"[]", b"{\"a\":1}"];
     run.par_slice("short streams (header + tiny body, <= 14 bytes): every composition", 2, nh * tiny.len() as u64, |idx, l| {
         let k = idx & ((1 << 40) - 1);
-        let mut data: Vec<u8> = crate::spaces::seq_upto_unrank(8, hmax, k / 4).iter().map(|&i| HALPHA[i]).collect();
+        let mut data: Vec<u8> = crate::spaces::seq_upto_unrank(9, hmax, k / 4).iter().map(|&i| HALPHA[i]).collect();
         data.extend_from_slice(tiny[(k % 4) as usize]);
         if data.len() > 14 {
             data.truncate(14);
